@@ -1,7 +1,11 @@
 import DimodModel.Vars
 
-/-! Feasibility prototype (scratch): executable model of the array-backed BQM
-    (`cybqm_template.pyx.pxi` over `abc.h`), labels kept as a plain list here. -/
+/-! Executable model of the array-backed BQM (`cybqm_template.pyx.pxi` + `cyqmbase_template.pyx.pxi`
+    over `abc.h`), of the Python layer on top of it (`binary_quadratic_model.py`: contract, flip, fix,
+    update fall-back, bulk adders) and of `VartypeView` (`vartypeview.py`, every method as coded).
+    Labels are kept as a plain list: that `cyVariables` *is* such a list is property C13.
+    The adjacency is always allocated here (`adj_ptr_ == nullptr` is observationally a list of empty
+    neighbourhoods).  Core Lean only. -/
 
 inductive VT | spin | binary
   deriving DecidableEq, Repr
@@ -22,11 +26,11 @@ def empty (vt : VT) : Bqm := { vt, labels := [], lin := [], adj := [], off := 0 
 
 def n (m : Bqm) : Nat := m.lin.length
 
-def indexOf? (m : Bqm) (v : Label) : Option Nat :=
-  let rec go : List Label → Nat → Option Nat
-    | [], _ => none
-    | l :: ls, i => if l = v then some i else go ls (i+1)
-  go m.labels 0
+def indexOfGo (v : Label) : List Label → Nat → Option Nat
+  | [], _ => none
+  | l :: ls, i => if l = v then some i else indexOfGo v ls (i+1)
+
+def indexOf? (m : Bqm) (v : Label) : Option Nat := indexOfGo v m.labels 0
 
 /-- the label `_append(None)` generates: the length if free, else the least free natural -/
 def autoLabel (m : Bqm) : Label :=
@@ -48,6 +52,8 @@ def indexP (m : Bqm) (v : Label) : Bqm × Nat :=
   | some i => (m, i)
   | none => (m.pushVar v, m.n)
 
+/-- `asymmetric_quadratic_ref(u, v) += b` (or `= b`) on the neighbourhood of `u`:
+    first entry with index ≥ v; modify if equal, insert before it otherwise -/
 def nbhAdd (nb : List (Nat × Rat)) (v : Nat) (b : Rat) (set : Bool) : List (Nat × Rat) :=
   match nb with
   | [] => [(v, b)]
@@ -84,14 +90,16 @@ def nbhCoef (nb : List (Nat × Rat)) (v : Nat) : Option Rat :=
   | [] => none
   | (w, c) :: t => if w = v then some c else nbhCoef t v
 
+/-- erase the entry of neighbour `w` -/
+def nbhDrop (nb : List (Nat × Rat)) (w : Nat) : List (Nat × Rat) := nb.filter (fun p => p.1 ≠ w)
+
 def removeInteraction (m : Bqm) (u v : Label) : Bqm × Option ErrC :=
   match m.indexOf? u, m.indexOf? v with
   | some ui, some vi =>
     match nbhCoef (m.adj.getD ui []) vi with
     | none => (m, some .value)
     | some _ =>
-      let drop (nb : List (Nat × Rat)) (w : Nat) := nb.filter (fun p => p.1 ≠ w)
-      ({ m with adj := modifyAt (modifyAt m.adj ui (drop · vi)) vi (drop · ui) }, none)
+      ({ m with adj := modifyAt (modifyAt m.adj ui (nbhDrop · vi)) vi (nbhDrop · ui) }, none)
   | _, _ => (m, some .value)
 
 def eraseIdx {α} (l : List α) (i : Nat) : List α :=
@@ -100,12 +108,17 @@ def eraseIdx {α} (l : List α) (i : Nat) : List α :=
   | _ :: t, 0 => t
   | a :: t, i+1 => a :: eraseIdx t i
 
+/-- what `remove_variable(vi)` does to one remaining neighbourhood: the entry of `vi` goes, larger
+    indices are decremented -/
+def shiftEntry (vi : Nat) (p : Nat × Rat) : Nat × Rat := (if p.1 > vi then p.1 - 1 else p.1, p.2)
+
+def nbhShift (vi : Nat) (nb : List (Nat × Rat)) : List (Nat × Rat) :=
+  (nb.filter (fun p => p.1 ≠ vi)).map (shiftEntry vi)
+
 /-- `abc::remove_variable(vi)` + label removal -/
 def removeAt (m : Bqm) (vi : Nat) : Bqm :=
-  let fix (nb : List (Nat × Rat)) : List (Nat × Rat) :=
-    (nb.filter (fun p => p.1 ≠ vi)).map (fun p => if p.1 > vi then (p.1 - 1, p.2) else p)
   { m with labels := eraseIdx m.labels vi, lin := eraseIdx m.lin vi,
-           adj := (eraseIdx m.adj vi).map fix }
+           adj := (eraseIdx m.adj vi).map (nbhShift vi) }
 
 def removeVariable (m : Bqm) (v : Option Label) : Bqm × Option ErrC :=
   match v with
@@ -118,18 +131,17 @@ def addVariable (m : Bqm) (v : Option Label) (b : Rat) : Bqm :=
   let lbl := match v with | some l => l | none => m.autoLabel
   m.addLinear lbl b
 
+def growTo (k : Nat) : Nat → Bqm → Bqm
+  | 0, m => m
+  | f+1, m => if m.n < k then growTo k f (m.pushVar m.autoLabel) else m
+
+def shrinkTo (k : Nat) : Nat → Bqm → Bqm
+  | 0, m => m
+  | f+1, m => if m.n > k then shrinkTo k f (m.removeAt (m.n - 1)) else m
+
 def resize (m : Bqm) (k : Int) : Bqm × Option ErrC :=
   if k < 0 then (m, some .value) else
-  let k := k.toNat
-  let rec grow (fuel : Nat) (m : Bqm) : Bqm :=
-    match fuel with
-    | 0 => m
-    | f+1 => if m.n < k then grow f (m.pushVar m.autoLabel) else m
-  let rec shrink (fuel : Nat) (m : Bqm) : Bqm :=
-    match fuel with
-    | 0 => m
-    | f+1 => if m.n > k then shrink f (m.removeAt (m.n - 1)) else m
-  (shrink m.n (grow k m), none)
+  (shrinkTo k.toNat m.n (growTo k.toNat k.toNat m), none)
 
 def scale (m : Bqm) (s : Rat) : Bqm :=
   { m with off := m.off * s, lin := m.lin.map (· * s), adj := m.adj.map (·.map fun p => (p.1, p.2 * s)) }
@@ -169,5 +181,353 @@ def energy (m : Bqm) (x : List Rat) : Rat :=
       rows (u+1) ls as acc
     | _, _ => acc
   rows 0 m.lin m.adj m.off
+
+/-! ### further operations of the public BQM interface -/
+
+/-- `clear()`: `abc::clear` keeps `vartype_` -/
+def clear (m : Bqm) : Bqm := { m with labels := [], lin := [], adj := [], off := 0 }
+
+/-- `relabel_variables(mapping)` = `Variables._relabel` (list semantics: `LSpec`, tied to the sparse maps by C13) -/
+def relabel (m : Bqm) (mp : List (Label × Label)) : Bqm × Option ErrC :=
+  match LSpec.step m.labels (.relabel mp) with
+  | (l, true) => ({ m with labels := l }, none)
+  | (_, false) => (m, some .value)
+
+def relabelInts (m : Bqm) : Bqm := { m with labels := (List.range m.labels.length).map fun (i : Nat) => Label.int (i : Int) }
+
+def linAt (m : Bqm) (i : Nat) : Rat := m.lin.getD i 0
+def quadAt (m : Bqm) (u v : Nat) : Option Rat := nbhCoef (m.adj.getD u []) v
+def nbhAt (m : Bqm) (i : Nat) : List (Nat × Rat) := m.adj.getD i []
+
+/-- symmetric add at index level (`abc::add_quadratic`, u ≠ v) -/
+def addQ (m : Bqm) (u v : Nat) (b : Rat) : Bqm := (m.asym u v b false).asym v u b false
+def setQ (m : Bqm) (u v : Nat) (b : Rat) : Bqm := (m.asym u v b true).asym v u b true
+
+/-- lower-triangle triples in `ConstQuadraticIterator` order -/
+def lowerTriples (m : Bqm) : List (Nat × Nat × Rat) :=
+  (List.range m.adj.length).flatMap fun u => ((m.nbhAt u).filter (fun p => p.1 < u)).map fun p => (u, p.1, p.2)
+
+def sumLin (m : Bqm) : Rat := m.lin.foldl (· + ·) 0
+def sumNbh (m : Bqm) (i : Nat) : Rat := (m.nbhAt i).foldl (fun a p => a + p.2) 0
+def sumQuad (m : Bqm) : Rat := m.lowerTriples.foldl (fun a t => a + t.2.2) 0
+
+/-! ### `VartypeView` — reads and writes as coded.  `tv` is the view's vartype. -/
+
+def vOffset (m : Bqm) (tv : VT) : Rat :=
+  if tv = m.vt then m.off else
+  match tv with
+  | .binary => m.off - m.sumLin + m.sumQuad
+  | .spin => m.off + m.sumLin / 2 + m.sumQuad / 4
+
+def vGetLinear (m : Bqm) (tv : VT) (i : Nat) : Rat :=
+  if tv = m.vt then m.linAt i else
+  match tv with
+  | .binary => 2 * m.linAt i - 2 * m.sumNbh i
+  | .spin => m.linAt i / 2 + m.sumNbh i / 4
+
+def vQuadFactor (m : Bqm) (tv : VT) : Rat :=
+  if tv = m.vt then 1 else match tv with | .binary => 4 | .spin => 1/4
+
+def vGetQuadratic (m : Bqm) (tv : VT) (u v : Nat) : Option Rat :=
+  (m.quadAt u v).map (m.vQuadFactor tv * ·)
+
+def vSetOffset (m : Bqm) (tv : VT) (b : Rat) : Bqm :=
+  if tv = m.vt then { m with off := b } else { m with off := m.off + (b - m.vOffset tv) }
+
+def vAddLinear (m : Bqm) (tv : VT) (v : Label) (b : Rat) : Bqm :=
+  if tv = m.vt then m.addLinear v b else
+  match tv with
+  | .binary => let m := m.addLinear v (b / 2); { m with off := m.off + b / 2 }
+  | .spin => let m := m.addLinear v (2 * b); { m with off := m.off - b }
+
+/-- view `add_quadratic` for `u ≠ v` -/
+def vAddQuadratic (m : Bqm) (tv : VT) (u v : Label) (b : Rat) : Bqm :=
+  if tv = m.vt then (m.quadOp u v b false).1 else
+  match tv with
+  | .binary =>
+    let m := (m.quadOp u v (b / 4) false).1
+    let m := m.addLinear u (b / 4)
+    let m := m.addLinear v (b / 4)
+    { m with off := m.off + b / 4 }
+  | .spin =>
+    let m := (m.quadOp u v (4 * b) false).1
+    let m := m.addLinear u (-2 * b)
+    let m := m.addLinear v (-2 * b)
+    { m with off := m.off + b }
+
+/-- view `add_variable(v, bias)`: `data.add_variable(v)` then the view's `add_linear` -/
+def vAddVariable (m : Bqm) (tv : VT) (v : Option Label) (b : Rat) : Bqm :=
+  let lbl := match v with | some l => l | none => m.autoLabel
+  let m := m.addLinear lbl 0
+  m.vAddLinear tv lbl b
+
+def vSetLinear (m : Bqm) (tv : VT) (v : Label) (b : Rat) : Bqm :=
+  if tv = m.vt then m.setLinear v b else
+  let m := m.vAddLinear tv v 0
+  match m.indexOf? v with
+  | none => m
+  | some i => m.vAddLinear tv v (b - m.vGetLinear tv i)
+
+/-- view `set_quadratic` (not a `view_method`: the same code runs whatever the data's vartype) -/
+def vSetQuadratic (m : Bqm) (tv : VT) (u v : Label) (b : Rat) : Bqm × Option ErrC :=
+  if u = v then (m, some .value) else
+  let m := m.vAddVariable tv (some u) 0
+  let m := m.vAddVariable tv (some v) 0
+  let m := m.vAddQuadratic tv u v 0
+  match m.indexOf? u, m.indexOf? v with
+  | some ui, some vi =>
+    (m.vAddQuadratic tv u v (b - ((m.vGetQuadratic tv ui vi).getD 0)), none)
+  | _, _ => (m, none)
+
+def vRemoveInteraction (m : Bqm) (tv : VT) (u v : Label) : Bqm × Option ErrC :=
+  if tv = m.vt then m.removeInteraction u v else
+  if u = v then (m, some .value) else
+  match m.indexOf? u, m.indexOf? v with
+  | some ui, some vi =>
+    match m.quadAt ui vi with
+    | none => (m, some .value)
+    | some _ =>
+      let m := (m.vSetQuadratic tv u v 0).1
+      m.removeInteraction u v
+  | _, _ => (m, some .value)
+
+def vRemoveVariable (m : Bqm) (tv : VT) (v : Option Label) : Bqm × Option ErrC :=
+  if tv = m.vt then m.removeVariable v else
+  let v? : Option Label := match v with
+    | some l => some l
+    | none => m.labels.getLast?
+  match v? with
+  | none => (m, some .value)
+  | some l =>
+    match m.indexOf? l with
+    | none => (m, some .value)
+    | some vi =>
+      let m1 := (m.nbhAt vi).foldl (fun acc p =>
+        match acc.labels[p.1]? with
+        | some ul => (acc.vSetQuadratic tv ul l 0).1
+        | none => acc) m
+      let m2 := m1.vSetLinear tv l 0
+      m2.removeVariable (some l)
+
+/-! ### Python-level operations written against the method interface (`QuadraticViewsMixin`,
+    `BinaryQuadraticModel`): the same code runs on a plain BQM (`tv = m.vt`) and through a view. -/
+
+/-- loop body of the mixin's `fix_variable`: `add_linear(u, value * bias)` for one neighbour (`f` = the factor a
+    view applies to the biases it reads) -/
+def fixStep (tv : VT) (a f : Rat) (acc : Bqm) (p : Nat × Rat) : Bqm :=
+  match acc.labels[p.1]? with
+  | some ul => acc.vAddLinear tv ul (a * (f * p.2))
+  | none => acc
+
+/-- `fix_variable(v, value)` of the mixin -/
+def vFixVariable (m : Bqm) (tv : VT) (v : Label) (a : Rat) : Bqm × Option ErrC :=
+  match m.indexOf? v with
+  | none => (m, some .value)
+  | some vi =>
+    let m1 := (m.nbhAt vi).foldl (fixStep tv a (m.vQuadFactor tv)) m
+    let m2 := m1.vSetOffset tv (m1.vOffset tv + a * m1.vGetLinear tv vi)
+    m2.vRemoveVariable tv (some v)
+
+/-- `BinaryQuadraticModel.scale(s)`: `data.scale` when the data has one, else the generic loop -/
+def vScale (m : Bqm) (tv : VT) (viaView : Bool) (s : Rat) : Bqm :=
+  if !viaView then m.scale s else
+  let m1 := (List.range m.labels.length).foldl (fun acc i =>
+    match acc.labels[i]? with
+    | some l => acc.vSetLinear tv l (s * acc.vGetLinear tv i)
+    | none => acc) m
+  let m2 := m1.lowerTriples.foldl (fun acc t =>
+    match acc.labels[t.1]?, acc.labels[t.2.1]? with
+    | some ul, some vl => (acc.vSetQuadratic tv ul vl (s * ((acc.vGetQuadratic tv t.1 t.2.1).getD 0))).1
+    | _, _ => acc) m1
+  m2.vSetOffset tv (m2.vOffset tv * s)
+
+/-- `BinaryQuadraticModel.contract_variables(u, v)` as coded (with the `u == v` rejection of D21);
+    written against the method interface, so the same code runs on the model and through a view -/
+def vContract (m : Bqm) (tv : VT) (u v : Label) : Bqm × Option ErrC :=
+  match m.indexOf? u, m.indexOf? v with
+  | some ui, some vi =>
+    if ui = vi then (m, some .value) else
+    let m1 := m.vAddLinear tv u (m.vGetLinear tv vi)
+    let q := (m1.vGetQuadratic tv ui vi).getD 0
+    let m2 := match tv with
+      | .binary => m1.vAddLinear tv u q
+      | .spin => m1.vSetOffset tv (m1.vOffset tv + q)
+    let m3 := (m2.vRemoveInteraction tv u v).1
+    let f := m3.vQuadFactor tv
+    let m4 := (m3.nbhAt vi).foldl (fun acc p =>
+      match acc.labels[p.1]? with
+      | some wl => acc.vAddQuadratic tv u wl (f * p.2)
+      | none => acc) m3
+    m4.vRemoveVariable tv (some v)
+  | _, _ => (m, some .value)
+
+/-- `set_quadratic` as the receiver implements it: the array back-end directly, a view object by the
+    delta code of `VartypeView.set_quadratic` -/
+def setQuadVia (m : Bqm) (tv : VT) (viaView : Bool) (u v : Label) (b : Rat) : Bqm :=
+  if viaView then (m.vSetQuadratic tv u v b).1 else (m.quadOp u v b true).1
+
+/-- `flip_variable(v)` as coded -/
+def vFlip (m : Bqm) (tv : VT) (viaView : Bool) (v : Label) : Bqm × Option ErrC :=
+  match m.indexOf? v with
+  | none => (m, some .value)
+  | some vi =>
+    let f := m.vQuadFactor tv
+    match tv with
+    | .spin =>
+      let m1 := (m.nbhAt vi).foldl (fun acc p =>
+        match acc.labels[p.1]? with
+        | some ul => acc.setQuadVia tv viaView ul v (-1 * (f * p.2))
+        | none => acc) m
+      (m1.vSetLinear tv v (-1 * m1.vGetLinear tv vi), none)
+    | .binary =>
+      let m1 := (m.nbhAt vi).foldl (fun acc p =>
+        match acc.labels[p.1]? with
+        | some ul => (acc.setQuadVia tv viaView ul v (-1 * (f * p.2))).vAddLinear tv ul (f * p.2)
+        | none => acc) m
+      let m2 := m1.vSetOffset tv (m1.vOffset tv + m1.vGetLinear tv vi)
+      (m2.vSetLinear tv v (-1 * m2.vGetLinear tv vi), none)
+
+/-- bulk adders: a left fold of the single-term step that stops at the first element that raises
+    and keeps what was applied so far (D34) -/
+def vAddLinearFrom (m : Bqm) (tv : VT) : List (Option Label × Rat) → Bqm × Option ErrC
+  | [] => (m, none)
+  | (none, _) :: _ => (m, some .value)
+  | (some v, b) :: t => vAddLinearFrom (m.vAddLinear tv v b) tv t
+
+def vAddQuadraticFrom (m : Bqm) (tv : VT) : List (Option Label × Option Label × Rat) → Bqm × Option ErrC
+  | [] => (m, none)
+  | (some u, some v, b) :: t =>
+    if u = v then (m, some .value) else vAddQuadraticFrom (m.vAddQuadratic tv u v b) tv t
+  | _ :: _ => (m, some .value)
+
+/-- `update(other)` : `data.update` defers, then `add_linear_from`, `add_quadratic_from`, offset,
+    reading `other` through its view of `self`'s vartype (`tvSelf` is the vartype the receiver shows) -/
+def vUpdate (m : Bqm) (tv : VT) (o : Bqm) : Bqm :=
+  let lins := (List.range o.labels.length).filterMap fun i => (o.labels[i]?).map fun l => (l, o.vGetLinear tv i)
+  let m1 := lins.foldl (fun acc p => acc.vAddLinear tv p.1 p.2) m
+  let quads := o.lowerTriples.filterMap fun t =>
+    match o.labels[t.1]?, o.labels[t.2.1]? with
+    | some ul, some vl => some (ul, vl, o.vQuadFactor tv * t.2.2)
+    | _, _ => none
+  let m2 := quads.foldl (fun acc t => acc.vAddQuadratic tv t.1 t.2.1 t.2.2) m1
+  m2.vSetOffset tv (m2.vOffset tv + o.vOffset tv)
+
+def isRange (m : Bqm) : Bool := m.labels == (List.range m.labels.length).map fun (i : Nat) => Label.int (i : Int)
+
+/-- `add_linear_from_array` (cyBQM) -/
+def addLinearFromArray (m : Bqm) (xs : List Rat) : Bqm :=
+  if m.isRange then
+    let m := if xs.length > m.n then (m.resize xs.length).1 else m
+    { m with lin := (List.range xs.length).foldl (fun l i => modifyAt l i (· + xs.getD i 0)) m.lin }
+  else
+    (List.range xs.length).foldl (fun acc (i : Nat) => acc.addLinear (.int (i : Int)) (xs.getD i 0)) m
+
+/-- `add_quadratic_from_dense` (cyBQM): `dense` row-major, `k × k`.  Non-zero diagonal ⇒ ValueError;
+    labels not a range ⇒ NotImplementedError. -/
+def addQuadraticFromDense (m : Bqm) (k : Nat) (dense : List Rat) : Bqm × Option ErrC :=
+  if (List.range k).any (fun u => dense.getD (u * (k + 1)) 0 ≠ 0) then (m, some .value) else
+  if !m.isRange then (m, some .runtime) else
+  let m := if k > m.n then (m.resize k).1 else m
+  let pairs := (List.range k).flatMap fun u => ((List.range k).filter (u < ·)).map fun v => (u, v)
+  (pairs.foldl (fun acc p =>
+    let q := dense.getD (p.1 * k + p.2) 0 + dense.getD (p.2 * k + p.1) 0
+    if q ≠ 0 then acc.addQ p.1 p.2 q else acc) m, none)
+
+/-! ### one step of a history -/
+
+inductive Op where
+  | addLinear (v : Option Label) (b : Rat)
+  | setLinear (v : Option Label) (b : Rat)
+  | addQuadratic (u v : Option Label) (b : Rat)
+  | setQuadratic (u v : Option Label) (b : Rat)
+  | removeInteraction (u v : Label)
+  | removeVariable (v : Option Label)
+  | addVariable (v : Option Label) (b : Rat)
+  | resize (k : Int)
+  | scale (s : Rat)
+  | setOffset (b : Rat)
+  | changeVartype (vt : VT)
+  | fixVariable (v : Label) (a : Rat)
+  | contract (u v : Label)
+  | flip (v : Label)
+  | relabel (mp : List (Label × Label))
+  | relabelInts
+  | clear
+  | update (o : Bqm)
+  | addLinearFrom (l : List (Option Label × Rat))
+  | addQuadraticFrom (l : List (Option Label × Option Label × Rat))
+  | addLinearFromArray (xs : List Rat)
+  | addQuadraticFromDense (k : Nat) (d : List Rat)
+  | malformed      -- a call with an argument outside the model's alphabet (wrong type, unhashable, NaN text …)
+
+/-- how the call is issued: on the model itself, or through a `VartypeView` object of vartype `tv`
+    (which may be stale, i.e. equal to the data's vartype) -/
+inductive Via where
+  | direct
+  | view (tv : VT)
+
+def Via.tv (m : Bqm) : Via → VT
+  | .direct => m.vt
+  | .view tv => tv
+
+def Via.isView : Via → Bool
+  | .direct => false
+  | .view _ => true
+
+def lift (m : Bqm) : Bqm × Option ErrC := (m, none)
+
+/-- `(state after, none | some class)`; the state after a raising call is what the code leaves behind -/
+def step (m : Bqm) (via : Via) (op : Op) : Bqm × Option ErrC :=
+  let tv := via.tv m
+  match op with
+  | .malformed => (m, some .type)
+  | .addLinear none _ | .setLinear none _ => (m, some .value)
+  | .addLinear (some v) b => lift (m.vAddLinear tv v b)
+  | .setLinear (some v) b => lift (m.vSetLinear tv v b)
+  | .addQuadratic (some u) (some v) b =>
+    if u = v then (m, some .value) else lift (m.vAddQuadratic tv u v b)
+  | .addQuadratic _ _ _ => (m, some .value)
+  | .setQuadratic (some u) (some v) b =>
+    match via with
+    | .direct => m.quadOp u v b true
+    | .view _ => m.vSetQuadratic tv u v b
+  | .setQuadratic _ _ _ => (m, some .value)
+  | .removeInteraction u v => m.vRemoveInteraction tv u v
+  | .removeVariable v => m.vRemoveVariable tv v
+  | .addVariable v b =>
+    match via with
+    | .direct => lift (m.addVariable v b)
+    | .view _ => lift (m.vAddVariable tv v b)
+  | .resize k =>
+    match via with
+    | .direct => m.resize k
+    | .view _ => (m, some .type)          -- VartypeView has no `resize`: AttributeError
+  | .scale s => lift (m.vScale tv via.isView s)
+  | .setOffset b => lift (m.vSetOffset tv b)
+  | .changeVartype vt =>
+    match via with
+    | .direct => lift (m.changeVartype vt)
+    | .view _ => lift m                    -- only the view object's own tag changes
+  | .fixVariable v a => m.vFixVariable tv v a
+  | .contract u v => m.vContract tv u v
+  | .flip v => m.vFlip tv via.isView v
+  | .relabel mp => m.relabel mp
+  | .relabelInts => lift m.relabelInts
+  | .clear => lift m.clear
+  | .update o => lift (m.vUpdate tv o)
+  | .addLinearFrom l => m.vAddLinearFrom tv l
+  | .addQuadraticFrom l => m.vAddQuadraticFrom tv l
+  | .addLinearFromArray xs =>
+    match via with
+    | .direct => lift (m.addLinearFromArray xs)
+    | .view _ => (m, some .type)
+  | .addQuadraticFromDense k d =>
+    match via with
+    | .direct => m.addQuadraticFromDense k d
+    | .view _ => (m, some .type)
+
+def run (m : Bqm) : List (Via × Op) → Bqm
+  | [] => m
+  | (via, op) :: t => run (m.step via op).1 t
 
 end Bqm
